@@ -82,6 +82,7 @@ func (c *SMTPClient) ReadReply() Reply {
 			break
 		}
 	}
+	r.Err = msgIDRe.ReplaceAllString(r.Err, "(msg ID = *)")
 	c.Replies = append(c.Replies, r)
 	if s := simrt.Cur(); s != nil {
 		s.Logf("%s < %s", c.Name, truncate(r.String(), 160))
